@@ -517,29 +517,60 @@ type crewQueue struct {
 	q    ssa.Value      // a member of the queue's web
 	head *ssa.IndexAddr // &pending[0]
 	loop *flow.Loop     // the dequeue loop
+	pm   *ssa.Function
 }
 
 func findCrewQueue(p *prog.Program, pm *ssa.Function) *crewQueue {
 	w := newSliceWebDeep(p, pm)
 	loops := flow.Loops(pm)
 	var out *crewQueue
-	ssau.Instrs(pm, func(in ssa.Instruction) {
-		ia, ok := in.(*ssa.IndexAddr)
-		if !ok || out != nil {
-			return
+	// the head may be taken in ProcessMsg itself or in a helper / method of the web that has a single call (a
+	// `pop()` of a queue struct): the dequeue loop is then the loop of ProcessMsg that runs that call
+	fns := []*ssa.Function{pm}
+	for _, f := range w.fns {
+		if f != pm && w.site[f] != nil {
+			fns = append(fns, f)
 		}
-		sl, isSl := ia.X.Type().Underlying().(*types.Slice)
-		if !isSl || !types.IsInterface(sl.Elem()) {
-			return
-		}
-		L := flow.InnermostLoop(loops, ia.Block())
-		if L == nil {
-			return
-		}
-		// the same web must be re-sliced inside the loop or tested by the loop condition
-		out = &crewQueue{web: w, q: ia.X, head: ia, loop: L}
-	})
+	}
+	for _, f := range fns {
+		ssau.Instrs(f, func(in ssa.Instruction) {
+			ia, ok := in.(*ssa.IndexAddr)
+			if !ok || out != nil {
+				return
+			}
+			sl, isSl := ia.X.Type().Underlying().(*types.Slice)
+			if !isSl || !types.IsInterface(sl.Elem()) {
+				return
+			}
+			site := w.liftTo(pm, ia)
+			if site == nil {
+				return
+			}
+			L := flow.InnermostLoop(loops, site.Block())
+			if L == nil {
+				return
+			}
+			// the same web must be re-sliced inside the loop or tested by the loop condition
+			out = &crewQueue{web: w, q: ia.X, head: ia, loop: L, pm: pm}
+		})
+	}
 	return out
+}
+
+// inLoop: the instruction runs inside the dequeue loop (directly, or in a single-call helper that the loop calls).
+func (cq *crewQueue) inLoop(in ssa.Instruction) bool {
+	site := cq.web.liftTo(cq.pm, in)
+	return site != nil && cq.loop.Blocks[site.Block()]
+}
+
+// headBefore: the head element is taken before instruction in runs, on every way to it: in the same function by
+// dominance, else by dominance of the places in ProcessMsg through which the two are reached.
+func (cq *crewQueue) headBefore(in ssa.Instruction) bool {
+	if cq.head.Parent() == in.Parent() {
+		return flow.InstrDominates(cq.head, in)
+	}
+	a, b := cq.web.liftTo(cq.pm, cq.head), cq.web.liftTo(cq.pm, in)
+	return a != nil && b != nil && a != b && flow.InstrDominates(a, b)
 }
 
 // c08Crew: sio.ProcessMsg re-queue and report.
@@ -701,12 +732,26 @@ func crewEmitted(c *Ctx, rule string) {
 					g = perMachine(bi.anchor, bi.walked)
 					ok2, why = g.ok, g.why
 				}
-				if ok2 {
-					L := flow.InnermostLoop(loopsIn(call.Parent()), call.Block())
+				// the report may sit in a helper (called from one place) below the function that holds the
+				// per-machine loop: every level must run the next one on each way through it, unless the batch is empty
+				at := ssa.Instruction(call)
+				for depth := 0; ok2 && at.Parent() != g.frame; depth++ {
+					cl := w.site[at.Parent()]
 					switch {
-					case call.Parent() != g.frame || L == nil:
+					case cl == nil || depth > 3:
 						ok2, why = false, "the batch is not reported from the per-machine loop"
-					case !lenGuardOnly(w, elems[0], call.Block(), L):
+					case !lenGuardOnlyFn(w, elems[0], at.Block()):
+						ok2, why = false, "a non-empty batch may go unreported"
+					default:
+						at = cl
+					}
+				}
+				if ok2 {
+					L := flow.InnermostLoop(loopsIn(g.frame), at.Block())
+					switch {
+					case L == nil || (at != ssa.Instruction(call) && L != g.loop):
+						ok2, why = false, "the batch is not reported from the per-machine loop"
+					case !lenGuardOnly(w, elems[0], at.Block(), L):
 						ok2, why = false, "a non-empty batch may go unreported"
 					default:
 						for _, o := range bi.origin {
